@@ -1,6 +1,6 @@
 (* C15 - a backup taken while the container is in use is complete and consistent.  Statements only. *)
 From Coq Require Import List ZArith NArith.
-From DOS Require Import Generated Base Store StoreProofs StoreLemmas Mono MonoStep.
+From DOS Require Import Generated Base Store StoreProofs StoreLemmas Validate Mono MonoStep Backup.
 Import ListNotations.
 
 Section C15.
@@ -24,6 +24,31 @@ Proof. exact (backup_complete H inflate H_inj). Qed.
 (* the concurrent steps are monotone steps *)
 Theorem C15_concurrent_steps_monotone : forall tr s, all_ok H inflate s tr -> Mono (fst s) (fst (run_events s tr)).
 Proof. exact (mono_steps H inflate H_inj). Qed.
+
+(* backup_container as a RUN (Backup.v): the loose list is taken (wl) and every listed entry transferred at an instant of its own
+   (a vanished entry is skipped), the index dumped atomically (w2), the pack list taken (wp) and every listed pack transferred at an
+   instant of its own - with ANY monotone steps of the other clients between any two of these instants (the chain of worlds).
+   For every such run: every object stored when the backup started reads back from the backup with exactly its bytes ... *)
+Theorem C15_backup_run_complete : forall w0 r k c,
+  Inv H inflate w0 -> valid_run H inflate w0 r ->
+  stored inflate w0 k = Some c -> stored inflate (backup_of r) k = Some c.
+Proof. intros w0 r k c I0 V. exact (backup_run_complete H inflate H_inj w0 r I0 V k c). Qed.
+
+(* ... and the backup is itself a valid container: the C03 invariant holds of it (every entry inside an existing pack, decoding to
+   bytes with the key as digest and the recorded size, no overlap, no key twice, every loose file named by its digest) ... *)
+Theorem C15_backup_run_is_a_valid_container : forall w0 r,
+  Inv H inflate w0 -> valid_run H inflate w0 r -> Inv H inflate (backup_of r).
+Proof. intros w0 r I0 V. exact (backup_run_is_a_valid_container H inflate w0 r V). Qed.
+
+(* ... hence its validation is clean and every key it exposes reads back, through the library's read path, as what the library-free
+   recovery gives (bytes with that digest) *)
+Theorem C15_backup_run_validates : forall w0 r,
+  Inv H inflate w0 -> valid_run H inflate w0 r ->
+  validate_b H inflate (backup_of r) = true /\ forall k, lookup_impl inflate (backup_of r) k = stored inflate (backup_of r) k.
+Proof.
+  intros w0 r I0 V. pose proof (backup_run_is_a_valid_container H inflate w0 r V) as IB.
+  split; [exact (validate_no_false_positive H inflate _ IB)|intros k; exact (lookup_impl_stored H inflate _ k IB)].
+Qed.
 End C15.
 
 (* the "everything else" step must not bring the live index or its WAL/SHM side files next to the dumped index:
@@ -33,3 +58,17 @@ Proof. cbv. intuition. Qed.
 Print Assumptions C15_backup_complete.
 Print Assumptions C15_concurrent_steps_monotone.
 Print Assumptions C15_excludes_cover_index_files.
+Print Assumptions C15_backup_run_complete.
+Print Assumptions C15_backup_run_is_a_valid_container.
+Print Assumptions C15_backup_run_validates.
+
+(* non-vacuity: object 1 is loose when the backup starts; it is packed and cleaned AFTER the loose list was taken and BEFORE its entry
+   is transferred (the entry has vanished and is skipped); the index is dumped after that, the pack copied last: the run is valid
+   (checked by computation on the model with H = first byte, inflate = identity) and the backup holds the object *)
+Definition bk_w0 : world := {| loose := [(1%N, mkFile [1%N] [1%N])]; packs := []; sandbox := []; db := [] |}.
+Definition bk_w1 : world := {| loose := []; packs := [(0%Z, mkFile [1%N] [1%N])]; sandbox := []; db := [mkRow 1%N 0%Z 0 1 false 1] |}.
+Definition bk_run : run := mkRun bk_w0 [(1%N, bk_w1)] bk_w1 bk_w1 [(0%Z, bk_w1)].
+Example C15_run_ex : stored (fun b => Some b) (backup_of bk_run) 1%N = Some [1%N] /\ get_loose (backup_of bk_run) 1%N = None.
+Proof. vm_compute. split; reflexivity. Qed.
+Example C15_phases : backup_phases = [PhLoose; PhDump; PhCopyDump; PhPacks; PhRest].
+Proof. reflexivity. Qed.
